@@ -233,6 +233,12 @@ fn plans_c17(tier: Tier) -> Vec<Plan> {
     // two filters under one share name: `$share/g/t` and `$share/g/u` are independent groups
     let c3 = mk("C17", 3, 3, &["t", "u"], &["$share/g/t", "x/+", "$share/g/u"]);
     v.push(Plan { cfg: c3, depth_by_devs: if q { vec![3] } else { vec![5, 4] } });
+    // a member with a persistent session (c1) next to a clean one (c2), QoS 1
+    let mut c4 = mk("C17", 4, 1, &["t"], &["$share/g/t"]);
+    c4.prelude.push(Act::Connect { c: 1, clean: false, will: 0 });
+    c4.prelude.push(Act::Connect { c: 2, clean: true, will: 0 });
+    c4.prelude.push(Act::Sub { c: 1, f: 0, qos: 1 });
+    v.push(Plan { cfg: c4, depth_by_devs: if q { vec![4] } else { vec![6, 5] } });
     if !q {
         c1.strategy = 2;
         v.push(Plan { cfg: c1, depth_by_devs: vec![6, 5] });
